@@ -104,48 +104,6 @@ def accepted_roundings(observed):
     return acc
 
 
-TARGETS = [("m/s^2", {"m": 1, "s": -2}), ("m/s", {"m": 1, "s": -1}), ("N", {"kg": 1, "m": 1, "s": -2}), ("J", {"kg": 1, "m": 2, "s": -2}),
-           ("W", {"kg": 1, "m": 2, "s": -3}), ("Pa", {"kg": 1, "m": -1, "s": -2}), ("Hz", {"s": -1}), ("m^2", {"m": 2}), ("m^3", {"m": 3}), ("kg/m^3", {"kg": 1, "m": -3}),
-           ("C", {"A": 1, "s": 1}), ("V", {"kg": 1, "m": 2, "s": -3, "A": -1}), ("kg", {"kg": 1}), ("m", {"m": 1}), ("s", {"s": 1}), ("A", {"A": 1}), ("mol/m^3", {"mol": 1, "m": -3}),
-           ("lx", {"cd": 1, "m": -2}), ("B/s", {"B": 1, "s": -1}), ("m/s^3", {"m": 1, "s": -3}), ("kg m/s", {"kg": 1, "m": 1, "s": -1})]
-
-
-def gen_context(rnd, v, n):
-    """Every unit word in a dimensional context: the word as one factor (numerator or denominator) of an expression that
-    is cast to a target of a common kind of quantity (acceleration, force, energy, ...), the other factors being base
-    units chosen so that the dimensions agree -- a word must mean the same whatever it is being converted to; and the
-    word alone cast to such a target, which has to be refused unless the dimensions agree."""
-    words = [w for w in v.names if v.typable(w) and v.unambiguous(w) and v.names[w][0][0] not in v.offset]
-    out = []
-    for w0 in words:
-        key = v.names[w0][0][0]
-        dw = v.units[key]["dims"]
-        for t, dt in TARGETS:
-            for form in ("alone", "num", "den"):
-                if n and rnd.random() > n:
-                    continue
-                w = w0
-                if rnd.random() < 0.25:
-                    w2, _ = v.word_for(rnd, key)
-                    w = w2 or w
-                if form == "alone":
-                    out.append("%s %s to %s" % (ugen.magnitude(rnd, True), w, t))      # refused unless the word has these dimensions
-                    continue
-                sign = 1 if form == "num" else -1
-                comp = {b: dt.get(b, 0) - sign * dw.get(b, 0) for b in ugen.BASES}
-                comp = [(ugen.BASE_WORD[b], e) for b, e in comp.items() if e != 0]
-                rnd.shuffle(comp)
-                cs = rnd.choice(["*", " "]).join(x if e == 1 else "%s^%d" % (x, e) for x, e in comp)
-                if sign == 1:
-                    q = w if not cs else (w + rnd.choice(["*", " "]) + cs if rnd.random() < 0.5 else cs + rnd.choice(["*", " "]) + w)
-                else:
-                    q = (cs if cs else "1") + "/" + w
-                    if not cs:
-                        continue
-                out.append("%s %s to %s" % (ugen.magnitude(rnd, True), q, t))
-    return out
-
-
 def gen_exprs(rnd, v, n):
     ug = ugen.UnitGen(v, rnd, maxpow=3)
     out = []
@@ -216,7 +174,7 @@ def run(chk):
             chk.nontrivial(r["text"])
     # unit expressions
     rnd = random.Random(chk.seed + 5)
-    ex = gen_exprs(rnd, v, p["exprs"]) + gen_context(rnd, v, p["context"]) + ["1 km/m", "1 mg/kg", "1 ms/s", "1 m m", "1 km*m", "1 kWh/Wh", "1 m/km", "2 cm*mm", "1 MB/kB", "1 m/s/s", "1 m/s/kg", "1 kg m^2/s^2", "1 m s^-1", "1 m*s**-2", "1 N m", "1 m/s^2 kg", "1 kg/m s", "5 km/h", "1 m^2/s^2/K"]
+    ex = gen_exprs(rnd, v, p["exprs"]) + ugen.gen_context(rnd, v, p["context"]) + ["1 km/m", "1 mg/kg", "1 ms/s", "1 m m", "1 km*m", "1 kWh/Wh", "1 m/km", "2 cm*mm", "1 MB/kB", "1 m/s/s", "1 m/s/kg", "1 kg m^2/s^2", "1 m s^-1", "1 m*s**-2", "1 N m", "1 m/s^2 kg", "1 kg/m s", "5 km/h", "1 m^2/s^2/K"]
     path = lang.record(ex, "c05-exprs")
     # per-unit factors as the tool exhibits them: a wrong *value* here can only come from how the expression is put together
     obs_path, _ = lang.observed_scales("c05-observed")
